@@ -4,6 +4,7 @@ import (
 	"context"
 	"encoding/json"
 	"fmt"
+	"math"
 	"strings"
 
 	"github.com/theory/sqljson/path/ast"
@@ -138,6 +139,28 @@ func compareNumbers[T int | int64 | float64](left, right T) int {
 	return 0
 }
 
+// compareIntFloat compares an integer to a float by value and returns 0, 1, or
+// -1. It does not convert the integer to a float, because integers beyond 2^53
+// would be rounded and compare equal to floats they differ from, so that the
+// order of numbers would not be transitive. The float must not be NaN.
+func compareIntFloat(left int64, right float64) int {
+	const twoTo63 = 9223372036854775808.0
+	switch {
+	case right >= twoTo63:
+		return -1
+	case right < -twoTo63:
+		return 1
+	}
+
+	// The integer part of right fits in an int64; compare it, then consider
+	// the fractional part.
+	whole := math.Trunc(right)
+	if cmp := compareNumbers(left, int64(whole)); cmp != 0 {
+		return cmp
+	}
+	return compareNumbers(0, right-whole)
+}
+
 // compareBool compares two numeric values and returns 0, 1, or -1. The left
 // and right params must be int64, float64, or json.Number values.
 func compareNumeric(left, right any) int {
@@ -147,14 +170,14 @@ func compareNumeric(left, right any) int {
 		case int64:
 			return compareNumbers(left, right)
 		case float64:
-			return compareNumbers(float64(left), right)
+			return compareIntFloat(left, right)
 		case json.Number:
 			if rightInt, err := right.Int64(); err == nil {
 				return compareNumbers(left, rightInt)
 			}
 			rightFloat, err := right.Float64()
 			if err == nil {
-				return compareNumbers(float64(left), rightFloat)
+				return compareIntFloat(left, rightFloat)
 			}
 			// This should not happen.
 			panic(err)
@@ -164,8 +187,11 @@ func compareNumeric(left, right any) int {
 		case float64:
 			return compareNumbers(left, right)
 		case int64:
-			return compareNumbers(left, float64(right))
+			return -compareIntFloat(right, left)
 		case json.Number:
+			if rightInt, err := right.Int64(); err == nil {
+				return -compareIntFloat(rightInt, left)
+			}
 			rightFloat, err := right.Float64()
 			if err == nil {
 				return compareNumbers(left, rightFloat)
